@@ -9,7 +9,7 @@
 From Coq Require Import List NArith Bool Arith.
 From OFGA Require Import Check.V1Weight2 Check.V1Recursive Check.V1FastPathBase Check.V1FastPathUnion
   Check.V1FastPathInter Check.V1FastPathDiff Check.V1FastPathSource Check.V1Weight2W2Proofs
-  Check.V1RecursiveProofs Check.V1StrategyProofs.
+  Check.V1RecursiveProofs Check.V1StrategyProofs Check.V1RecursiveFirst Check.V1RecursiveFirstProofs.
 Import ListNotations.
 Open Scope N_scope.
 
@@ -132,6 +132,37 @@ Example c02_bfs_ex : rec_check [(1,2);(2,3);(3,1);(3,4)] [4] 25 1 = BTrue /\
   rec_check [(1,2);(2,3);(3,4)] [4] 2 1 = BDepth /\
   (length (nodes_of [(1,2);(2,3);(3,1);(3,4)]%N [1; 4]%N) + 2 < 25)%nat.
 Proof. vm_compute. repeat split; repeat constructor. Qed.
+
+(* the first level of the recursive strategy (the loop that merges the object side and the user
+   side before the search): for EVERY interleaving of the two sides a hit is found exactly when
+   they have a common element, and the outcome class does not depend on the interleaving *)
+Theorem c02_first_level_matched_iff : forall sched user obj r, first_level sched user obj = Some r ->
+  (r = FLMatched <-> exists x, In x user /\ In x obj).
+Proof. exact first_level_matched_iff. Qed.
+Print Assumptions c02_first_level_matched_iff.
+
+Theorem c02_first_level_order_irrelevant : forall s1 s2 user obj,
+  fl_class (first_level s1 user obj) = fl_class (first_level s2 user obj).
+Proof. exact first_level_order_irrelevant. Qed.
+Print Assumptions c02_first_level_order_irrelevant.
+
+Theorem c02_first_level_search_sets : forall sched user obj us os,
+  first_level sched user obj = Some (FLSearch us os) ->
+  (forall x, In x us <-> In x user) /\ (forall x, In x os <-> In x obj) /\ user <> [] /\
+  ~ (exists x, In x user /\ In x obj).
+Proof. exact first_level_search_sets. Qed.
+Print Assumptions c02_first_level_search_sets.
+
+Theorem c02_first_level_agrees_with_rec_fast : forall sched user obj,
+  fl_class (first_level sched user obj) = 0 <->
+  (obj <> [] /\ user <> [] /\ existsb (fun y => memN y user) obj = true).
+Proof. exact first_level_agrees_with_rec_fast. Qed.
+Print Assumptions c02_first_level_agrees_with_rec_fast.
+
+(* the user-side userset arriving before / after the matching object-side one *)
+Example c02_first_level_ex : first_level [true; true; true] [2] [1; 2] = Some FLMatched /\
+  first_level [false; false; false] [2] [1; 2] = Some FLMatched.
+Proof. vm_compute. split; reflexivity. Qed.
 
 (* ---- the answer does not depend on the planner ---- *)
 Theorem c02_strategy_irrelevant : forall (key : Type) (n : node key), coherent key n = true ->
